@@ -23,7 +23,8 @@ TRUSTED = [
     "Lean 4.33 kernel; Mathlib lemmas; axioms ⊆ {propext, Classical.choice, Quot.sound}",
     "hand-written model FV/Model/Yaml.lean + FV/Model/Netlist.lean — fidelity to frame/netlist/*.py and "
     "parse_yaml_rectangle / Rectangle.__init__ checked by this correspondence run, not proved",
-    "create_stog is a parameter of the model (role-assigning permutation); math.sqrt is a parameter (wire length)",
+    "create_stog: parameter of the model, instantiated in the …_createStog theorems and in the driver by stogC06 (the C06 "
+    "model, StogPerm proved in FV/Proofs/StogInst.lean); math.sqrt is a parameter (wire length)",
     "the process-wide tolerance Rectangle._area_epsilon is an explicit parameter εA of the model",
     "theorems are over exact ordered fields; IEEE rounding is executed (F stream), never proved",
     "harness (Python) and compiled Lean driver: encoding of trees, canonicalisation, comparison; the document oracle "
@@ -217,8 +218,8 @@ def run(ctx: Ctx) -> None:
                 "hard module, flip on a non-hard module, region on a hard rectangle, negative coordinates); non-trivial = "
                 "accepted non-empty document (valid) / every malformed case")
     ctx.assumptions = [
-        "create_stog is a parameter of the model (StogPerm: it permutes a module's rectangles, changing only roles); "
-        "math.sqrt is a parameter (wire length); the area tolerance in force is the parameter εA",
+        "no assumption about create_stog is left (…_createStog theorems use the C06 model, for which StogPerm is proved); "
+        "math.sqrt is a parameter (wire length); the distance / area tolerances in force are the parameters ε / εA",
         "a Python dict cannot hold a key twice: the model rejects duplicate keys, the generators never produce them",
         "exact-field arithmetic in the theorems; float stream compared with 1e-9 relative tolerance (wire length: relative "
         "to Σ w·k·max|coordinate|, the scale at which the rounding of the mean is amplified)",
